@@ -227,7 +227,7 @@ def run(tier, res, is_known):
             if any(not is_known(v) for v in res.violations):
                 return
     for sizer_kind in ('long_only', 'long_short'):
-        spec = Spec(sizer_kind, ('zero',), 'long_AB_npstr', menus(sizer_kind, 'quick'))
+        spec = Spec(sizer_kind, ('zero',), 'long_AB_npstr', [menus(sizer_kind, 'quick')[1], menus(sizer_kind, 'quick')[1][::2]])
         bfs(spec, 2, res, is_known, label='%s, numpy-string symbols' % sizer_kind, recheck=4)
         if any(not is_known(v) for v in res.violations):
             return
